@@ -370,7 +370,7 @@ func (fam grpFamily) allFile(infos map[string][]impLoopInfo) string {
 	for _, m := range fam.members {
 		b.WriteString("import GnarkVerif.Gen.Imp." + fam.name + "_" + m.tag + "\n")
 	}
-	b.WriteString("\nnamespace GV.Gen.Imp." + fam.name + "All\n\n")
+	b.WriteString("\nset_option linter.unusedSimpArgs false\n\nnamespace GV.Gen.Imp." + fam.name + "All\n\n")
 	for _, m := range fam.members[1:] {
 		ns := fam.name + "_" + m.tag
 		var lemmas []string
@@ -404,6 +404,27 @@ func (fam grpFamily) allFile(infos map[string][]impLoopInfo) string {
 			lemmas = append(lemmas, ln)
 		}
 		b.WriteString("\n")
+	}
+	for _, fn := range fam.funcs {
+		ty := famSigs[first+"."+fn]
+		if ty == "" {
+			die("imp: family %s: no signature recorded for %s", fam.name, fn)
+		}
+		b.WriteString("/-- the translated " + fn + " of every member of the family, by name -/\ndef all_" + fn + " : List (String × (" + ty + ")) := [\n")
+		var alts []string
+		for i, m := range fam.members {
+			sep := ","
+			if i == len(fam.members)-1 {
+				sep = ""
+			}
+			b.WriteString("  (\"" + m.tag + "\", @" + fam.name + "_" + m.tag + "." + fn + ")" + sep + "\n")
+			if i > 0 {
+				alts = append(alts, "exact "+m.tag+"_"+fn+"_same")
+			}
+		}
+		b.WriteString("]\n\ntheorem all_" + fn + "_same : ∀ e ∈ all_" + fn + ", @e.2 = @" + first + "." + fn + " := by\n  intro e he\n  simp only [all_" + fn +
+			", List.mem_cons, List.not_mem_nil, or_false] at he\n  rcases he with " + strings.TrimSuffix(strings.Repeat("rfl | ", len(fam.members)), " | ") +
+			" <;> first | rfl | (simp only []; first | " + strings.Join(alts, " | ") + ")\n\n")
 	}
 	b.WriteString("end GV.Gen.Imp." + fam.name + "All\n")
 	return b.String()
